@@ -57,9 +57,15 @@ fn main() {
     let all: Vec<Vector> = read_tlc_tagged(&tlc_out, "TR").into_iter().map(|v| serde_json::from_value(v).unwrap()).collect();
     let mut classes: BTreeMap<String, Vec<Vector>> = BTreeMap::new();
     for v in all {
-        classes.entry(format!("{} {} {}", vector_signature(&v), v.obs.cres.k, v.obs.ures.k)).or_default().push(v);
+        // class = call, pre-state class, decisions AND the shape of what is written (what is written
+        // over what matters: stale leftovers only show when the new content is smaller)
+        let key = format!("{} {} {} arg[{} {} {} {}] cres[{} {}] ures[{} {}] pre[{} {}]", vector_signature(&v), v.obs.cres.k, v.obs.ures.k,
+            v.obs.arg.env, v.obs.arg.execd.len(), v.obs.arg.md.kind, v.obs.arg.sbom.values().filter(|t| *t != "none").count(),
+            v.obs.cres.shape.env, v.obs.cres.shape.execd.len(), v.obs.ures.shape.env, v.obs.ures.shape.execd.len(),
+            v.pre.env, v.pre.execd.len());
+        classes.entry(key).or_default().push(v);
     }
-    let richness = |v: &Vector| v.pre.files.len() + v.pre.execd.len() + usize::from(v.pre.env != "none") + v.pre.sbom.values().filter(|t| *t != "none").count() + v.obs.cres.shape.files.len() + v.obs.ures.shape.execd.len() + usize::from(v.obs.cres.shape.env != "none") + usize::from(v.obs.ures.shape.env != "none");
+    let richness = |v: &Vector| v.pre.files.len() + v.pre.sbom.values().filter(|t| *t != "none").count() + usize::from(v.pre.toml.md.kind != "none");
     let mut jobs: Vec<Vector> = vec![];
     for (_, mut vs) in classes {
         vs.sort_by_key(|v| std::cmp::Reverse(richness(v)));
